@@ -277,9 +277,10 @@ def render(atoms, syntax='advanced'):
         elif t == 'n':
             e, c, k = number_parts(a, syntax)
         elif t == 'j':
-            assert 0 <= a[1] <= 65529
-            e = c = str(a[1])
-            k = bytes([0x0e, a[1] & 0xff, a[1] >> 8])
+            # values above 65529 are symbolic codes of a caller (C14): widest number as placeholder
+            n = a[1] if 0 <= a[1] <= 65529 else 65529
+            e = c = str(n)
+            k = bytes([0x0e, n & 0xff, n >> 8])
         elif t == 'sp':
             e = c = ' ' * a[1]
             k = e.encode()
@@ -767,9 +768,6 @@ class _B(object):
         if c in (2, 3, 4):
             head = [d(st.one_of(st_kw('PRINT'), st_kw('PRINT'), st.just(['k', 'PRINT', -1]),
                                 st_kw('LPRINT')))]
-            if self.noq and head[0][2] == -1:
-                # '?' behind THEN/ELSE: see C17 finding roundtrip.qmark-in-jump-context
-                head = [['k', 'PRINT', 0]]
             if d(st.integers(0, 5)) == 0:
                 head += [SP] + self.filenum() + [P(',')]
             n = d(st.integers(0, 4))
@@ -1231,7 +1229,8 @@ def st_line_atoms(draw, syntax='advanced', jumps=None, max_len=230, max_statemen
         atoms = [['k', 'END', 0]]
     # optional trailing ' comment on a non-comment line
     if atoms[-1][0] not in ('rem', 'data') and draw(st.integers(0, 9)) == 0:
-        cand = canonical(atoms + b.osp() + [b.comment()])
+        com = b.comment()
+        cand = canonical(atoms + b.osp() + ([P(':')] if com[1] == 'REM' else []) + [com])
         if body_len(cand, syntax) <= max_len:
             atoms = cand
     # a string literal at the very end of the line may lack its closing quote
